@@ -459,6 +459,54 @@ func runGrpcFlow(c *core.Ctx) {
 		if pk := load.FnPkg(sx.Callee(call)); pk == nil || !strings.Contains(pk.Path(), "status") {
 			return
 		}
+		// the status of a non-nil error is never OK: gRPC reports success for an OK status and refuses to attach
+		// details to it, so the code taken from the error (which a caller may have set to codes.OK) is replaced
+		// on that edge
+		codeOK := false
+		var visitCode func(v ssa.Value, lits []lit, d int) bool
+		visitCode = func(v ssa.Value, lits []lit, d int) bool {
+			if d > 4 {
+				return false
+			}
+			switch x := v.(type) {
+			case *ssa.Const:
+				k, isK := sx.ConstInt(x)
+				return isK && k != 0
+			case *ssa.Phi:
+				for i, e := range x.Edges {
+					if !visitCode(e, edgeLits(x.Block().Preds[i], x.Block()), d+1) {
+						return false
+					}
+				}
+				return true
+			case *ssa.Call:
+				if x != getCode {
+					return false
+				}
+				for _, l := range lits {
+					bin, isBin := l.V.(*ssa.BinOp)
+					if !isBin {
+						continue
+					}
+					var other ssa.Value
+					if bin.X == ssa.Value(x) {
+						other = bin.Y
+					} else if bin.Y == ssa.Value(x) {
+						other = bin.X
+					}
+					if k, isK := sx.ConstInt(other); other != nil && isK && k == 0 {
+						if (bin.Op == token.EQL && l.Neg) || (bin.Op == token.NEQ && !l.Neg) {
+							return true
+						}
+					}
+				}
+				return false
+			}
+			return false
+		}
+		codeOK = visitCode(call.Call.Args[0], dominatingLits(call.Block()), 0)
+		c.Check(codeOK, "server: status.New(code, ...) for a non-nil error", call.Pos(), "the code is never codes.OK (the error's own code, replaced when it is OK)",
+			"the status for a non-nil handler error is built with the error's code unchecked: for an error carrying codes.OK (WrapWithGrpcCode(err, codes.OK)) gRPC refuses the details - the interceptor panics - and an OK status would report success")
 		msg, isCall := call.Call.Args[1].(*ssa.Call)
 		ok2 := isCall && msg.Call.IsInvoke() && msg.Call.Method.Name() == "Error" && msg.Call.Value == herr
 		c.Check(ok2, "server: status.New(code, err.Error())", call.Pos(), "the status message is exactly the handler error's text", "the gRPC status message is not the handler error's Error() text itself (it is transformed first): the status can become unmarshalable or differ from the error")
